@@ -1,4 +1,4 @@
-import StraxModel.Lemmas.AlignRun
+import StraxModel.Lemmas.AlignStruct
 /-
   C08 — plugins see time-aligned inputs and receive each input row exactly once.
 
@@ -25,9 +25,14 @@ import StraxModel.Lemmas.AlignRun
     converges : chunks.length = deps.length → deps ≠ [] → validInputsB rid chunks → StartAt T0 chunks →
                 endAtB T1 chunks → kindAlignedB deps chunks → passesSufficeB deps chunks strict →
                 ∃ r, iterRun deps chunks strict = .ok r
-  Proved as `converges_partial` with `(deps.map (·.kind)).Nodup` in place of `kindAlignedB`: for several
-  dependencies of one kind the success of `Chunk.merge` additionally needs "same-kind inputs split
-  identically" (equal row counts) and the totality of `mergeChunks`, which are not proved.
+  Proved: `converges_no_straddle` (the full statement on the sub-domain `noStraddleB`: no row straddles a
+  chunk end — then `passesSufficeB` is not needed and several dependencies of one kind are covered) and
+  `converges_partial` with `(deps.map (·.kind)).Nodup` in place of `kindAlignedB`.  Missing for the full
+  statement: with early splits AND several dependencies of one kind, "same-kind inputs split identically"
+  (equal row counts per call).  `passesSufficeB` is the model's own run, not a condition on the input shape:
+  `converges_partial` says "total except for the literal 10".  A bound of the number of passes by the
+  longest chain of mutually straddling rows at one boundary (`StaggerDepth ≤ 10`) is not proved; proved is
+  the bound (rows in the inputs of the iteration) + 2 (`retrim_terminates`).
   False without `passesSufficeB` (`ten_pass_counterexample`, D9).
 -/
 namespace Strax.C08
@@ -219,10 +224,16 @@ theorem retrim_terminates {rid : String} {T : Int} {n : Nat} {t : Int} {z : Zip 
     (hn : inRows z + 2 ≤ n) : ∃ z', retrim n t z = .ok z' :=
   retrim_total hg hs ht hn
 
-/-- **totality of `Plugin.iter`** (dependencies of pairwise different kinds): valid law-abiding
-inputs (C07's sense, one run id) that start at `T0` and end at `T1`, and a re-trim loop that does
-not run out of its ten passes (`passesSufficeB`): the run succeeds under either policy, the calls
-tile `[T0, T1]` and every row is handed over. -/
+/-- **totality of `Plugin.iter` modulo the literal ten** (dependencies of pairwise different kinds): valid
+law-abiding inputs (C07's sense, one run id) that start at `T0` and end at `T1`: the run succeeds under
+either policy, the calls tile `[T0, T1]` and every row is handed over — PROVIDED `passesSufficeB`.
+Read that hypothesis for what it is: it is NOT a condition on the shape of the input but the model's own
+run ("ten passes give the same outcome as a pass budget that always suffices"); since the large-budget
+run is total (`Strax.Align.iterRunP_total`), the content of this theorem is "the algorithm is total
+except for the literal 10" (D9).  Structural sufficient conditions: `converges_no_straddle` (no row
+straddles a chunk end: the loop never runs; also covers several dependencies of ONE kind) and
+`converges_few_rows` (≤ 8 rows).  Excluded by the hypotheses: dependencies of one kind (`hk`), runs that
+end at different times or with a zero-duration last chunk (`he`, D16), annotated (superrun) chunks (`hv`). -/
 theorem converges_partial {rid : String} {T0 T1 : Int} (hlen : chunks.length = deps.length)
     (hdeps : deps ≠ []) (hv : validInputsB rid chunks = true) (hT : StartAt T0 chunks)
     (he : endAtB T1 chunks = true) (hk : (deps.map (fun d => d.kind)).Nodup)
@@ -244,7 +255,26 @@ theorem converges_partial {rid : String} {T0 T1 : Int} (hlen : chunks.length = d
   obtain ⟨t1, t2⟩ := last_call_ends_at_run_end hv hT he hrun
   exact ⟨r, hrun, by unfold iterModel; rw [hrun], t1, t2⟩
 
-/-- a structural sufficient condition for the ten passes: at most eight input rows in total -/
+/-- **totality from a structural condition on the input** (any kinds, several dependencies of one kind
+included): valid law-abiding inputs that start at `T0` and end at `T1`, every chunk of the kind of its
+dependency, same-kind dependencies interval-equal (`kindAlignedB`), and no row of any dependency
+straddling the end of a chunk of any dependency (`noStraddleB`, e.g. dependencies that share their
+cuts, or rows that never cross a cut).  Then no early split ever happens, the re-trim loop exits at its
+first check (ten passes are nine more than needed), `Chunk.merge` succeeds on the same-kind inputs, the
+run succeeds under either policy, the calls tile `[T0, T1]` and nothing is left over. -/
+theorem converges_no_straddle {rid : String} {T0 T1 : Int} (hlen : chunks.length = deps.length)
+    (hdeps : deps ≠ []) (hv : validInputsB rid chunks = true) (hT : StartAt T0 chunks)
+    (he : endAtB T1 chunks = true) (hns : noStraddleB chunks = true)
+    (hck : chunkKindsB deps chunks = true) (hka : kindAlignedB deps chunks = true) :
+    ∃ r, iterRun deps chunks strict = .ok r ∧ iterModel deps chunks strict = .ok r.calls ∧
+      lastStop T0 r.calls = T1 ∧ ∀ l ∈ r.leftover, l = [] := by
+  obtain ⟨r, hr⟩ := iterRunP_total_nostraddle (strict := strict) (n := maxPasses) hlen hdeps hv hT he hns hck hka
+    (by decide)
+  have hrun : iterRun deps chunks strict = .ok r := hr
+  obtain ⟨t1, t2⟩ := last_call_ends_at_run_end hv hT he hrun
+  exact ⟨r, hrun, by unfold iterModel; rw [hrun], t1, t2⟩
+
+/-- a (weak) structural sufficient condition for the ten passes: at most eight input rows in total -/
 theorem converges_few_rows {rid : String} {T0 T1 : Int} (hlen : chunks.length = deps.length)
     (hdeps : deps ≠ []) (hv : validInputsB rid chunks = true) (hT : StartAt T0 chunks)
     (he : endAtB T1 chunks = true) (hk : (deps.map (fun d => d.kind)).Nodup)
@@ -318,6 +348,21 @@ example : validInputsB "0" [plainA, plainB] = true ∧ endAtB 10 [plainA, plainB
     (witnessDeps.map (fun d => d.kind)).Nodup ∧ witnessDeps ≠ [] ∧
     passesSufficeB witnessDeps [plainA, plainB] true = true ∧
     kindAlignedB witnessDeps [plainA, plainB] = true := by decide +kernel
+
+/-- `converges_no_straddle` on a two-kind, three-dependency instance (two dependencies of one kind in
+different chunkings; cuts at 5 / none / 3 and 5; no row crosses 3 or 5): the hypotheses hold by evaluation,
+the outcome follows from the theorem (the kernel cannot evaluate `Chunk.merge`'s merge sort itself) -/
+example :
+    let a1 : List Chunk := [plainChunk "a1" "ka" 0 5 [⟨0, 2, 0⟩, ⟨3, 5, 1⟩], plainChunk "a1" "ka" 5 10 [⟨6, 8, 2⟩]]
+    let a2 : List Chunk := [plainChunk "a2" "ka" 0 10 [⟨0, 2, 7⟩, ⟨3, 5, 8⟩, ⟨6, 8, 9⟩]]
+    let b : List Chunk := [plainChunk "b" "kb" 0 3 [⟨1, 3, 0⟩], plainChunk "b" "kb" 3 5 [], plainChunk "b" "kb" 5 10 [⟨5, 9, 1⟩]]
+    let ds : List Dep := [⟨"a1", "ka"⟩, ⟨"a2", "ka"⟩, ⟨"b", "kb"⟩]
+    ∃ r, iterRun ds [a1, a2, b] true = .ok r ∧ lastStop 0 r.calls = 10 := by
+  intro a1 a2 b ds
+  obtain ⟨r, h1, _, h3, _⟩ := converges_no_straddle (rid := "0") (T0 := 0) (T1 := 10) (deps := ds)
+    (chunks := [a1, a2, b]) (strict := true) (by decide +kernel) (by decide +kernel) (by decide +kernel)
+    (by decide +kernel) (by decide +kernel) (by decide +kernel) (by decide +kernel) (by decide +kernel)
+  exact ⟨r, h1, h3⟩
 
 /-- the brick pattern satisfies every hypothesis of `converges_partial` except `passesSufficeB` -/
 example : validInputsB "0" [brickA, brickB] = true ∧ endAtB 13 [brickA, brickB] = true ∧
